@@ -788,6 +788,28 @@ pub fn run(cfg: &Cfg, rep: &mut Report) {
             seqs.push(format!("seq {} || {}", Src::Doc("plain *text*\n".into()).input(first), Src::Doc(md.into()).input(second)));
         }
     }
+    // curated: an earlier document on either side of a size threshold (a buffer kept per thread for large inputs) that
+    // ends without a line terminator, in NUL, a lone CR or an unfinished construct, then a later small or large document
+    {
+        let filler = |n: usize| -> String {
+            let mut t = String::new();
+            while t.len() < n {
+                t.push_str("lorem *ipsum* dolor `sit` amet\n");
+            }
+            t
+        };
+        let o = Opts::default();
+        for asize in [100usize, 70_000] {
+            for ending in ["", "\0", "\r", "tail\0\0", "\\", "`x"] {
+                for bsize in [50usize, 70_000] {
+                    let a = format!("{}{}", filler(asize), ending);
+                    let b = format!("# Title\n\n{}", filler(bsize));
+                    seqs.push(format!("seq {} || {}", Src::Doc(a).input(&o), Src::Doc(b).input(&o)));
+                    rep.count("sequence-size-threshold-and-ending");
+                }
+            }
+        }
+    }
     let outs = crate::worker::run_cases("C05", &seqs, budget, crate::worker::default_workers());
     for (sq, got) in seqs.iter().zip(outs.iter()) {
         rep.s_evals += 1;
